@@ -243,6 +243,21 @@ impl Bus {
         match region_of(addr) {
             Region::RomLow | Region::RomHigh => {
                 self.mbc.write(addr, value);
+                // ROM sizes that are not a power of two (72/80/96 banks): what a
+                // selection beyond the last bank shows is not documented
+                let banks = self.rom.len() / 0x4000;
+                if !banks.is_power_of_two() && self.mbc.rom_bank_high_raw().iter().any(|b| *b >= banks) {
+                    for a in 0x4000..0x8000usize {
+                        self.mask[a] = 0;
+                    }
+                    self.rom_high_bank = usize::MAX;
+                    let rb = self.mbc.ram_bank();
+                    if rb != self.ram_bank {
+                        self.ram_bank = rb;
+                        self.map_cart_ram();
+                    }
+                    return Ok(());
+                }
                 let cands = self.mbc.rom_bank_high();
                 let mut chosen = cands[0];
                 if cands.len() > 1 {
